@@ -710,6 +710,20 @@ class Interp:
                 env.pos[pat["id"]] = p
             else:
                 env.pos.pop(pat["id"], None)
+            # let tail = &s[pos..] with pos = s.find(T): tail starts with T
+            xi = init
+            while isinstance(xi, dict) and xi.get("k") == "ref":
+                xi = xi.get("e")
+            if isinstance(xi, dict) and xi.get("k") == "index" and is_str_ty(xi.get("bt")) and \
+                    isinstance(xi.get("i"), dict) and (xi["i"].get("path") or "").endswith("RangeFrom"):
+                st_ = [f_["e"] for f_ in xi["i"].get("fields") or [] if f_["name"] == "start"]
+                pp_ = self.pos_of(st_[0], env) if st_ else None
+                if pp_ and pp_[1] == "find" and place_str(xi["e"]) == pp_[0]:
+                    s_ = env.prefix.setdefault(name, set())
+                    if pp_[3]:
+                        s_.add("len:" + pp_[3])
+                    if isinstance(pp_[2], int):
+                        s_.add(pp_[2])
             # parse_exact_length(x, k)? also proves len(x) >= k
             if init is not None:
                 self.arg_effects(init, env)
@@ -1075,7 +1089,14 @@ class Interp:
         if k == "call" and re.search(r"(panicking::panic|panicking::unreachable|rt::begin_panic|panicking::assert_failed|rt::panic_fmt|panic_explicit|panic_display)", n.get("f") or ""):
             self.ledger.append(Site("P1", self.b, n, (n.get("f") or "").rsplit("::", 1)[-1], "finding",
                                     "explicit panic / unreachable / assert in library code"))
-        if k == "mcall" and n.get("m") in ("split_at", "split_at_mut") and is_str_ty(n.get("rt")):
+        if k == "mcall" and n.get("m") in ("split_at", "split_at_mut") and is_str_ty(n.get("rt")) and \
+                isinstance(lit_val(peel((n.get("args") or [None])[0])), int):
+            # s.split_at(k) with a constant k panics exactly when &s[..k] does
+            a = (n.get("args") or [None])[0]
+            self.index_site({"k": "index", "ln": n.get("ln"), "e": n["recv"], "bt": n.get("rt"),
+                             "i": {"k": "struct", "path": "std::ops::RangeTo", "t": "std::ops::RangeTo<usize>",
+                                   "fields": [{"name": "end", "e": a}]}}, env)
+        elif k == "mcall" and n.get("m") in ("split_at", "split_at_mut") and is_str_ty(n.get("rt")):
             a = (n.get("args") or [None])[0]
             p = self.pos_of(a, env)
             base = place_str(n["recv"])
@@ -1113,6 +1134,13 @@ class Interp:
                 if isinstance(v, int) and base and v in env.prefix.get(base, set()):
                     continue
                 pe = peel(e)
+                if isinstance(pe, dict) and pe.get("k") == "local" and CN_INIT.get(pe.get("name") or "") is not None:
+                    pe = peel(CN_INIT[pe["name"]])
+                # base is known to start with the text T (it is the tail from where T was found): T.len() is a
+                # boundary of it
+                if isinstance(pe, dict) and pe.get("k") == "mcall" and pe.get("m") == "len" and base and \
+                        ("len:" + expr_text(peel(pe["recv"]))) in env.prefix.get(base, set()):
+                    continue
                 if isinstance(pe, dict) and pe.get("k") == "bin" and pe.get("op") == "-" and base and \
                         self.len_of(pe["l"]) == base and self.const(pe["r"], env) in env.suffix.get(base, set()):
                     continue
@@ -1205,6 +1233,19 @@ class Interp:
 
     def unwrap_site(self, n, env):
         recv = n["recv"]
+        # s.get(a..b).unwrap() panics exactly when &s[a..b] does: one and the same site
+        g0 = recv
+        while isinstance(g0, dict) and g0.get("k") == "ref":
+            g0 = g0.get("e")
+        if isinstance(g0, dict) and g0.get("k") == "mcall" and g0.get("m") == "get" and len(g0.get("args") or []) == 1 \
+                and is_str_ty(g0.get("rt")):
+            rng = g0["args"][0]
+            while isinstance(rng, dict) and rng.get("k") == "ref":
+                rng = rng.get("e")
+            if isinstance(rng, dict) and rng.get("k") == "struct" and "Range" in (rng.get("path") or rng.get("t") or ""):
+                self.index_site({"k": "index", "ln": n.get("ln"), "e": g0["recv"], "i": rng,
+                                 "bt": g0.get("rt")}, env)
+                return
         text = "%s.%s()" % (expr_text(recv), n["m"])
         rp = place_str(recv)
         ok = False
